@@ -26,7 +26,7 @@ func detBytes(m proto.Message) []byte {
 
 // recompile feeds descriptor protos back as SearchResult.Proto (mode "proto")
 // or as linked descriptors built by protodesc (mode "desc").
-func recompile(protos map[string]*descriptorpb.FileDescriptorProto, names []string, mode string, par int) *gen.Outcome {
+func recompile(protos map[string]*descriptorpb.FileDescriptorProto, names []string, mode string, par int, sim protocompile.SourceInfoMode) *gen.Outcome {
 	var reg *protoregistry.Files
 	if mode == "desc" {
 		var fds []*descriptorpb.FileDescriptorProto
@@ -53,7 +53,7 @@ func recompile(protos map[string]*descriptorpb.FileDescriptorProto, names []stri
 		}
 		return protocompile.SearchResult{Proto: p}, nil
 	}))
-	return gen.CompileWith(res, names, gen.Opts{Par: par})
+	return gen.CompileWith(res, names, gen.Opts{Par: par, SourceInfo: sim})
 }
 
 // allProtos collects the protos of all results reachable from files.
@@ -66,7 +66,9 @@ func allProtos(files linker.Files) map[string]*descriptorpb.FileDescriptorProto 
 }
 
 func checkFixpoint(r *vlib.Run, id string, src map[string]string, names []string, par int) {
-	first := gen.Compile(src, names, gen.Opts{Par: par})
+	// every combination of the source-info flags, the same for all generations
+	sim := protocompile.SourceInfoMode(vlib.Hash64(id) % 8)
+	first := gen.Compile(src, names, gen.Opts{Par: par, SourceInfo: sim})
 	if !first.OK() {
 		r.Class("skipped:first-compilation-rejected")
 		return
@@ -78,13 +80,14 @@ func checkFixpoint(r *vlib.Run, id string, src map[string]string, names []string
 	}
 	key := srcKey(src)
 	for _, mode := range []string{"proto", "desc"} {
-		second := recompile(p1, names, mode, par)
+		second := recompile(p1, names, mode, par, sim)
 		if second == nil {
 			r.Class("skipped:protodesc-refuses (" + mode + ")")
 			continue
 		}
 		r.Eval(key + mode)
-		w := map[string]any{"sources": src, "mode": mode}
+		w := map[string]any{"sources": src, "mode": mode, "source_info_mode": int(sim)}
+		r.Class(fmt.Sprintf("source-info-mode:%d", int(sim)))
 		if !second.OK() {
 			w["errors"] = second.ErrSummary()
 			kind := "c10.second-generation-fails"
@@ -143,7 +146,7 @@ func checkFixpoint(r *vlib.Run, id string, src map[string]string, names []string
 		}
 		if !bad {
 			// third generation: the fixpoint is reached after one step
-			third := recompile(p2, names, "proto", par)
+			third := recompile(p2, names, "proto", par, sim)
 			if third == nil || !third.OK() {
 				r.Violation("c10.third-generation-fails", "proto", id, w)
 				continue
